@@ -110,6 +110,9 @@ class StreamingDetector(ABC):
             ValueError: raised if more than one observation is passed.
         """
         ary = np.array(y).ravel()
+        if ary.dtype.kind in "US":
+            # fixed-width string storage drops trailing NUL characters: keep the labels as they were given
+            ary = np.array(y, dtype=object).ravel()
         if ary.shape != (1,):
             raise ValueError(
                 "Input for streaming detectors should contain only one observation."
